@@ -45,7 +45,20 @@ type In struct {
 	KeyringNames []string
 	Orders       bool   `json:",omitempty"` // run under c14.ForEachMapOrder and judge the SET of outcomes
 	Deb          []byte // the package, byte-exact
+
+	// call-sequence inputs: the package is loaded ONCE and CheckDebsig is called len(Calls) times on that one Deb
+	// (Ask / Keyring / KeyringNames above are unused then); Keys maps a key name to its armoured public key.
+	Calls []Call            `json:",omitempty"`
+	Keys  map[string]string `json:",omitempty"`
 }
+
+// Call is one CheckDebsig call of a sequence.
+type Call struct {
+	Ask          string
+	KeyringNames []string
+}
+
+func (c Call) String() string { return fmt.Sprintf("CheckDebsig(%v, %q)", c.KeyringNames, c.Ask) }
 
 // Outcome of one LoadAndVerify execution.
 type Outcome struct {
@@ -86,6 +99,40 @@ func LoadAndVerify(b []byte, role string, keyring openpgp.EntityList) Outcome {
 		}
 	})
 	return out
+}
+
+// LoadAndVerifySeq loads the bytes once, reads the payload, and performs the calls in order on the one Deb.
+func LoadAndVerifySeq(b []byte, roles []string, keyrings []openpgp.EntityList) []Outcome {
+	outs := make([]Outcome, len(roles))
+	obs := c14.Observe(b, func(d *deb.Deb) {
+		for i := range roles {
+			out := &outs[i]
+			out.VerifyCalled = true
+			panicked, msg := mc.Guard(func() {
+				signer, err := d.CheckDebsig(keyrings[i], roles[i])
+				if err != nil {
+					out.VerifyErr = err.Error()
+					if out.VerifyErr == "" {
+						out.VerifyErr = "error"
+					}
+					return
+				}
+				out.VerifyOK = true
+				if signer == nil {
+					out.SignerNil = true
+				} else {
+					out.Signer = gen.PGPFingerprint(signer)
+				}
+			})
+			if panicked {
+				out.VerifyPanic = msg
+			}
+		}
+	})
+	for i := range outs {
+		outs[i].Obs = obs
+	}
+	return outs
 }
 
 // Class: outcome class in which error texts do not take part.
@@ -207,12 +254,18 @@ func has(xs []string, x string) bool {
 
 // judge returns the violations of one outcome: nothing unless Load and CheckDebsig both succeeded.
 func judge(scen string, in In, o Outcome, keyFPs []string) []*mc.Violation {
+	return judgeAs(scen, in, in, "", nil, o, keyFPs)
+}
+
+// judgeAs judges outcome o of the call described by in (its Ask / KeyringNames); the violation carries report as
+// replayable input (the whole call sequence), ctx in front of the observation, and the extra features.
+func judgeAs(scen string, in, report In, ctx string, extra []string, o Outcome, keyFPs []string) []*mc.Violation {
 	if !o.Loaded || !o.VerifyOK {
 		return nil
 	}
 	var vs []*mc.Violation
 	bad := func(clause, exp, obs string) {
-		vs = append(vs, mc.V(scen, clause, in, exp, obs, features(in)...))
+		vs = append(vs, mc.V(scen, clause, report, exp, ctx+obs, append(features(in), extra...)...))
 	}
 	ms, err := gen.ParseAr(in.Deb)
 	if err != nil {
@@ -291,6 +344,9 @@ func judge(scen string, in In, o Outcome, keyFPs []string) []*mc.Violation {
 
 // Check is the oracle for one input: one execution, or the set of outcomes over the explored map orders.
 func Check(scen string, in In) ([]*mc.Violation, []Outcome) {
+	if len(in.Calls) > 0 {
+		return checkSeq(scen, in)
+	}
 	keyring, err := gen.PGPReadKeyring(in.Keyring...)
 	if err != nil {
 		return []*mc.Violation{mc.V(scen, "harness-keyring-unreadable", in, "armoured keys parse", err.Error())}, nil
@@ -335,6 +391,70 @@ func Check(scen string, in In) ([]*mc.Violation, []Outcome) {
 			}
 		}
 	}
+	for _, v := range best {
+		vs = append(vs, v)
+	}
+	sort.Slice(vs, func(i, j int) bool { return vs[i].Clause < vs[j].Clause })
+	return vs, outs
+}
+
+// checkSeq is the oracle for a call sequence on one loaded Deb: every call is judged by itself, independent of the
+// calls before it — it may succeed only if the asked role's member exists, its signature is by a key in the keyring
+// passed to THAT call, over the bytes of the exposed members. (A later call may fail for reasons of its own, e.g.
+// because a reader was consumed by an earlier call: a soundness oracle does not object.)
+func checkSeq(scen string, in In) ([]*mc.Violation, []Outcome) {
+	rings := map[string]openpgp.EntityList{}
+	for name, arm := range in.Keys {
+		el, err := gen.PGPReadKeyring(arm)
+		if err != nil {
+			return []*mc.Violation{mc.V(scen, "harness-keyring-unreadable", in, "armoured keys parse", err.Error())}, nil
+		}
+		rings[name] = el
+	}
+	roles := make([]string, len(in.Calls))
+	krs := make([]openpgp.EntityList, len(in.Calls))
+	fps := make([][]string, len(in.Calls))
+	for i, c := range in.Calls {
+		roles[i] = c.Ask
+		krs[i] = openpgp.EntityList{}
+		for _, n := range c.KeyringNames {
+			krs[i] = append(krs[i], rings[n]...)
+		}
+		for _, e := range krs[i] {
+			fps[i] = append(fps[i], gen.PGPFingerprint(e))
+		}
+	}
+	outs := LoadAndVerifySeq(in.Deb, roles, krs)
+	best := map[string]*mc.Violation{}
+	history := ""
+	for i, c := range in.Calls {
+		view := in
+		view.Ask, view.KeyringNames, view.Calls = c.Ask, c.KeyringNames, nil
+		if view.KeyringNames == nil {
+			view.KeyringNames = []string{}
+		}
+		ctx := fmt.Sprintf("call %d of %d on the same Deb, %s%s: ", i+1, len(in.Calls), c, history)
+		extra := []string{"call-sequence"}
+		if i > 0 {
+			extra = append(extra, "not-the-first-call-on-this-deb")
+		}
+		for _, v := range judgeAs(scen, view, in, ctx, extra, outs[i], fps[i]) {
+			if best[v.Clause] == nil {
+				best[v.Clause] = v
+			}
+		}
+		res := "failed"
+		if outs[i].VerifyOK {
+			res = "succeeded"
+		}
+		if history == "" {
+			history = " after "
+		} else {
+			history += ", "
+		}
+		history += c.String() + " " + res
+	}
+	var vs []*mc.Violation
 	for _, v := range best {
 		vs = append(vs, v)
 	}
